@@ -1,5 +1,5 @@
 #!/usr/bin/env python3
-"""For every /verif/seeded/<name>/: apply patch.diff to /repo, run the property's quick check (and the checks listed in
+"""For every /verif/seeded/<name>/: apply patch.diff to a scratch worktree of /repo HEAD (VERIF_REPO), run the property's quick check (and the checks listed in
 EXTRA), undo, and record in meta.json which checks report a VIOLATION."""
 import json, os, subprocess, sys, glob
 ROOT = "/verif"
@@ -9,17 +9,17 @@ for name in names:
     d = f"{ROOT}/seeded/{name}"
     meta = json.load(open(f"{d}/meta.json"))
     prop = meta["property"]
-    assert subprocess.run("git -C /repo diff --quiet", shell=True).returncode == 0, "repo dirty"
-    r = subprocess.run(f"git -C /repo apply --3way {d}/patch.diff || git -C /repo apply {d}/patch.diff", shell=True, capture_output=True, text=True)
-    subprocess.run("git -C /repo reset -q", shell=True)
+    wt = f"/tmp/wt/det-{name}"
+    subprocess.run(f"git -C /repo worktree remove --force {wt}; git -C /repo worktree add -q --detach {wt} HEAD", shell=True, capture_output=True)
+    r = subprocess.run(f"git -C {wt} apply --3way {d}/patch.diff || git -C {wt} apply {d}/patch.diff", shell=True, capture_output=True, text=True)
     det = {}
     for c in [prop] + EXTRA.get(prop, []):
-        p = subprocess.run(f"cd {ROOT} && timeout 3000 ./check {c} --tier quick", shell=True, capture_output=True, text=True)
+        p = subprocess.run(f"cd {ROOT} && VERIF_REPO={wt} timeout 3000 ./check {c} --tier quick", shell=True, capture_output=True, text=True)
         lines = [l for l in p.stdout.splitlines() if l.startswith("VIOLATION")]
         why = [l.strip() for l in p.stdout.splitlines() if l.startswith("    ")]
         det[c] = {"exit": p.returncode, "violation_lines": len(lines), "first": (why[0][:300] if why else None),
                   "with_failing_input": any("no-failing-input-found" not in l for l in lines)}
-    subprocess.run("git -C /repo checkout -q -- . ; rm -f /verif/replays/*.json", shell=True)
+    subprocess.run(f"git -C /repo worktree remove --force {wt}; rm -f /verif/replays/*.json", shell=True, capture_output=True)
     meta["detection"] = det
     meta["detected"] = any(v["exit"] == 1 for v in det.values())
     json.dump(meta, open(f"{d}/meta.json", "w"), indent=1)
